@@ -122,6 +122,18 @@ def structural(expr: Any, env: Env) -> str:
 def module_fingerprint(mod: Any, with_functions: bool, budget: float = 8.0) -> dict[str, str]:
     env = Env(mod)
     out: dict[str, str] = {}
+    # declared meaning of the module's own symbols: display names, dimension, assumptions
+    from symplyphysics.core.symbols.symbols import DimensionSymbol
+    for n in sorted(vars(mod)):
+        v = vars(mod)[n]
+        if n.startswith("_") or not isinstance(v, DimensionSymbol):
+            continue
+        try:
+            assum = sorted((k, b) for k, b in getattr(v, "assumptions0", {}).items()) if hasattr(v,
+                "assumptions0") else []
+            out[f"sym:{n}"] = f"{v.display_name}|{v.display_latex}|{v.dimension.name}|{assum}"
+        except Exception:
+            pass
     for attr, eq in catalogue.equations(mod):
         try:
             with time_limit(budget):
